@@ -333,7 +333,7 @@ var c19Sched = &vh.Prop[c19Case]{ID: "C19", Name: "owned-schedule", Slow: 4, Gen
 	if rapid.IntRange(0, 15).Draw(t, "prefilled") == 0 {
 		bases := []int{256, 1024, 1024}
 		if vh.Thorough() {
-			bases = []int{256, 1024, 4096, 1024}
+			bases = []int{256, 1024, 1024, 1024, 256, 1024, 1024, 4096}
 		}
 		c.Prefill = bases[rapid.IntRange(0, len(bases)-1).Draw(t, "prebase")] - rapid.IntRange(0, 8).Draw(t, "preoff")
 	}
